@@ -184,7 +184,7 @@ def fault_job(job):
     from harness import SAN_ENV, Part
     import shutil, os
     ck = CK(job['hdr']); part = Part(); be = job['backend']; call = job['call']; SO, U, NEW = b'so-pin-f4', b'user-pin-f4', b'changed-pin-f4'
-    base = os.path.join(job['scratch'], f'c04f-{be}-{call}'); gold = base + '-gold'; d = base + '-run'
+    base = os.path.join(job['scratch'], f'c04f-{be}-{call}-{job["errno"]}'); gold = base + '-gold'; d = base + '-run'
     for q in (gold, d): shutil.rmtree(q, ignore_errors=True)
     def start(dirp): return Exec(job['paths']['asan']['exe'], job['paths']['asan']['lib'], mkconf(dirp, be), ck, env=dict(SAN_ENV), stderr=dirp + '/stderr.log')
     def attach(x):
